@@ -119,7 +119,13 @@ func (m *Matcher) pop() {
 }
 
 func (m *Matcher) merge() {
+	set := m.setBindings[len(m.setBindings)-1]
 	m.setBindings = m.setBindings[:len(m.setBindings)-1]
+	if n := len(m.setBindings); n > 0 {
+		// Bindings made in the frame now belong to the enclosing frame,
+		// so that they get undone if the enclosing alternative fails later.
+		m.setBindings[n-1] |= set
+	}
 }
 
 func (m *Matcher) Match(a Pattern, b ast.Node) bool {
@@ -635,7 +641,11 @@ func (or Or) Match(m *Matcher, node any) (any, bool) {
 }
 
 func (not Not) Match(m *Matcher, node any) (any, bool) {
+	// Bindings made while trying the operand must not be observable,
+	// whether it matched or not.
+	m.push()
 	_, ok := match(m, not.Node, node)
+	m.pop()
 	if ok {
 		return nil, false
 	}
